@@ -37,8 +37,7 @@ pub fn enum_load(_s: u64) -> Vec<String> {
     out
 }
 
-/// The rejected half: the text `:- nothing.` is put after the first rule.  load_kb_from_file must report an error and
-/// leave exactly the first rule in the knowledge base.
+/// The rejected half: a text that is not a rule is put after the first rule.  load_kb_from_file must report an error.
 fn check_load_bad(body: &str) -> Result<(), String> {
     let rules: Vec<&str> = body.split('\u{1}').collect();
     let candidates = [":- nothing.", "p(a) :- .", "p(a) :- q(b) r(c).", "p(a, ) :- q."];
@@ -51,11 +50,9 @@ fn check_load_bad(body: &str) -> Result<(), String> {
     let mut kb = KnowledgeBase::new();
     let res = load_kb_from_file(&mut kb, path.to_str().unwrap());
     let _ = std::fs::remove_file(&path);
+    // (what the knowledge base holds after a rejected load is not part of the statement: an atomic load satisfies it too)
+    let _ = &kb;
     if res.is_none() { return Err(format!("a file with the unparsable rule {:?} loads without an error", bad)); }
-    let mut kb_expected = KnowledgeBase::new();
-    add_rules!(&mut kb_expected, parse_rule(rules[0]).map_err(|e| e.to_string())?);
-    let show = |kb: &KnowledgeBase| { let mut v: Vec<String> = kb.iter().map(|(k, rs)| format!("{} => {}", k, rs.iter().map(|r| format!("{}", r)).collect::<Vec<_>>().join(" | "))).collect(); v.sort(); v };
-    if show(&kb) != show(&kb_expected) { return Err(format!("after the rejected load the knowledge base is {:?}, the rules before the bad one give {:?}", show(&kb), show(&kb_expected))); }
     Ok(())
 }
 
@@ -105,6 +102,17 @@ pub fn check_load(case: &str) -> Result<(), String> {
         for r in &rules { add_rules!(&mut kb_expected, parse_rule(r).unwrap()); }
         let show = |kb: &KnowledgeBase| { let mut v: Vec<String> = kb.iter().map(|(k, rs)| format!("{} => {}", k, rs.iter().map(|r| format!("{}", r)).collect::<Vec<_>>().join(" | "))).collect(); v.sort(); v };
         if show(&kb_loaded) != show(&kb_expected) { return Err(format!("load_kb_from_file built {:?}, the rules added one by one build {:?}", show(&kb_loaded), show(&kb_expected))); }
+        // ... and into a knowledge base that already holds clauses of the same predicates (seed C21-4: a staged load replaced them):
+        // the file loaded a second time into the same knowledge base
+        {
+            let path2 = std::env::temp_dir().join(format!("verif_c21_again_{}.txt", std::process::id()));
+            { let mut f = std::fs::File::create(&path2).map_err(|e| e.to_string())?; f.write_all(text.as_bytes()).map_err(|e| e.to_string())?; f.write_all(b"\n").ok(); }
+            let again = load_kb_from_file(&mut kb_loaded, path2.to_str().unwrap());
+            let _ = std::fs::remove_file(&path2);
+            if let Some(e) = again { return Err(format!("the second load of the same file is rejected: {}", e)); }
+            for r in &rules { add_rules!(&mut kb_expected, parse_rule(r).unwrap()); }
+            if show(&kb_loaded) != show(&kb_expected) { return Err(format!("loaded into a knowledge base that holds clauses of the same predicates: {:?}, the rules added one by one give {:?}", show(&kb_loaded), show(&kb_expected))); }
+        }
     }
     match got {
         Err(e) => Err(format!("file rejected: {}", e)),
